@@ -181,7 +181,7 @@ pub fn escaped_rust_name(name: String) -> String {
         | "trait" | "true" | "type" | "unsafe" | "use" | "where" | "while" | "async" | "await"
         | "dyn" | "try" | "macro_rules" | "union" | "'static" | "abstract" | "become" | "box"
         | "do" | "final" | "gen" | "macro" | "override" | "priv" | "typeof" | "unsized"
-        | "virtual" | "yield" => name + "_",
+        | "virtual" | "yield" | "_" => name + "_",
         _ => name,
     }
 }
